@@ -5,6 +5,7 @@
  *   k = -1: no fault; k >= 0: request number k+1 made by the library during this op fails.
  *   L new | L append | L set i | L insert i | L delete i | L get i | L free
  *   P new | P alloc | P delete i | P free
+ *   D new perf | D resize rows cols freqs | D free   (vnadata_alloc [+ per-frequency z0 flag], vnadata_resize(VPT_UNDEF,...), vnadata_free)
  *   A type frows fcols brows bcols srows scols      (vnacal_new_add_mapped_matrix_m, port_map NULL)
  * Output per op:  <ret class> <errno class> <live blocks of the object>
  */
@@ -13,6 +14,8 @@
 #include <complex.h>
 #include <vnacal.h>
 #include "vnacal_internal.h"
+#include <vnadata.h>
+#include "vnadata_internal.h"
 
 extern void verif_alloc_track(int on);
 extern void verif_alloc_reset(long fail_at);
@@ -38,7 +41,8 @@ int main(int argc, char **argv)
     char line[256];
     vnaproperty_t *list = NULL;
     vnacal_t *vcp = NULL;
-    long lbase = 0, pbase = 0;
+    vnadata_t *vdp = NULL;
+    long lbase = 0, pbase = 0, dbase = 0;
     FILE *fp = argc > 1 ? fopen(argv[1], "r") : stdin;
     if (fp == NULL) return 2;
     setvbuf(stdout, NULL, _IOLBF, 0);
@@ -74,6 +78,21 @@ int main(int argc, char **argv)
 	    else if (!strcmp(op, "free")) { vnacal_free(vcp); vcp = NULL; pbase = verif_live_blocks(); rc = 0; }
 	    verif_alloc_track(0);
 	    live = verif_live_blocks() - pbase;
+	} else if (obj[0] == 'D') {
+	    if (!strcmp(op, "new")) {
+		dbase = verif_live_blocks();
+		vdp = vnadata_alloc(NULL, NULL);
+		rc = vdp ? 0 : -1;
+		if (vdp != NULL && a[0] != 0) {		/* per-frequency z0 mode from the start */
+		    verif_alloc_track(0);
+		    (void)_vnadata_convert_to_fz0(VDP_TO_VDIP(vdp));
+		}
+	    }
+	    else if (vdp == NULL) { rc = -2; }
+	    else if (!strcmp(op, "resize")) { rc = vnadata_resize(vdp, VPT_UNDEF, (int)a[0], (int)a[1], (int)a[2]); }
+	    else if (!strcmp(op, "free")) { vnadata_free(vdp); vdp = NULL; rc = 0; }
+	    verif_alloc_track(0);
+	    live = verif_live_blocks() - dbase;
 	} else if (obj[0] == 'A') {
 	    int type = (int)strtol(op, NULL, 10);
 	    int fr = (int)a[0], fc = (int)a[1], br = (int)a[2], bc = (int)a[3], sr = (int)a[4], sc = (int)a[5];
@@ -103,5 +122,6 @@ int main(int argc, char **argv)
     }
     if (list != NULL) vnaproperty_free(list);
     if (vcp != NULL) vnacal_free(vcp);
+    if (vdp != NULL) vnadata_free(vdp);
     return 0;
 }
